@@ -120,6 +120,12 @@ def lexemes(text):
 FAULTS = ['undeclared', 'dropped-operand', 'unbalanced', 'stray', 'type-error', 'side-effect', 'unterminated-comment', 'free-parameter']
 
 
+BAD_DECLS = ['urgent broadcast int ub ;', 'urgent int ui ;', 'broadcast int bi ;', 'urgent broadcast bool ubb ;', 'typedef urgent broadcast int ubi_t ; ubi_t wub ;', 'typedef int pl_t ; urgent broadcast pl_t wpl ;',
+             'const clock cc ;', 'meta clock mc ;', 'urgent clock uc ;', 'broadcast clock bc ;', 'const chan cch ;', 'urgent broadcast double ud ;', 'void fz ( ) { for ( c : clock ) { } }',
+             'void fy ( ) { for ( c : chan ) { } }', 'void fx ( ) { for ( c : double ) { } }', 'int [ 0.5 , 2 ] rr ;', 'scalar [ 2.5 ] sc ;', 'struct { clock c ; chan d ; } const sx ;', 'const struct { urgent int a ; } sy ;',
+             'int aa [ 1.5 ] ;', 'int ab [ clock ] ;', 'void & vr ;', 'urgent broadcast void fv ( ) { }', 'int fi ( urgent int p ) { return 0 ; }', 'int fj ( broadcast int & p ) { return 0 ; }']
+
+
 def inject(tokens, kind, fault, pos, rng):
     """returns the faulted token list or None if the fault does not apply at pos"""
     t = list(tokens)
@@ -221,6 +227,13 @@ def check(run):
         blocks = base_blocks(rng)
         texts = {n: ' '.join(t) + (extra if n == bname else '') for n, _, _, t in blocks}
         cases.append(dict(block=bname, path='/nta/' + bpath, kind='decl', fault='void-reference', pos=0, texts=texts, style='plain', xml=render(texts), tokens=[]))
+    # declarations the type checker rejects because of a prefix or a type in a place that does not take it: the diagnostic is on the type (a prefix node, the
+    # type of a loop variable ...), whose position has to be the one of the text that wrote it
+    for bname, bpath in (('gdecl', 'declaration'), ('t2decl', 'template[2]/declaration')):
+        for q, extra in enumerate(BAD_DECLS):
+            blocks = base_blocks(rng)
+            texts = {n: ' '.join(t) + (' ' + extra if n == bname else '') for n, _, _, t in blocks}
+            cases.append(dict(block=bname, path='/nta/' + bpath, kind='decl', fault='bad-declaration:%d' % q, pos=0, texts=texts, style='plain', xml=render(texts), tokens=[]))
     # scenario charts (<lsc> elements): an undeclared identifier in each of their text blocks
     for bname, bpath, old, new in (('lsc-parameter', 'lsc[1]/parameter', '<parameter>int a</parameter>', '<parameter>int a, zz9 q</parameter>'), ('lsc-declaration', 'lsc[1]/declaration', '<declaration>int v;</declaration>', '<declaration>int v = zz9;</declaration>'),
                                    ('lsc-condition', 'lsc[1]/condition[1]/label[1]', 'x &gt;= a', 'zz9 &gt;=\n a'), ('lsc-update', 'lsc[1]/update[1]/label[1]', 'g = 1', 'g =\n zz9'),
